@@ -28,6 +28,38 @@ from ..report import Check
 M = "xknx.secure.keyring"
 
 
+def inline_locals(fn: ast.AST, e: ast.AST, keep_calls: tuple = (), depth: int = 6) -> ast.AST:
+    """e with every local that has exactly one binding (a plain assignment) replaced by its right-hand side —
+    comparison of expressions up to naming and statement splitting."""
+    import copy
+    stores: dict[str, list] = {}
+    bare = {id(n.target) for n in walk_local(fn) if isinstance(n, ast.AnnAssign) and n.value is None}  # `x: T` binds nothing
+    for n in walk_local(fn):
+        if isinstance(n, ast.Name) and isinstance(n.ctx, ast.Store) and id(n) not in bare:
+            stores.setdefault(n.id, []).append(n)
+    defs: dict[str, ast.AST] = {}
+    for n in walk_local(fn):
+        if isinstance(n, (ast.Assign, ast.AnnAssign)) and n.value is not None:
+            ts = n.targets if isinstance(n, ast.Assign) else [n.target]
+            if len(ts) == 1 and isinstance(ts[0], ast.Name) and len(stores.get(ts[0].id, [])) == 1:
+                if isinstance(n.value, ast.Call) and call_name(n.value) in keep_calls:
+                    continue
+                defs[ts[0].id] = n.value
+
+    class T(ast.NodeTransformer):
+        def visit_Name(self, node: ast.Name):
+            if isinstance(node.ctx, ast.Load) and node.id in defs:
+                return copy.deepcopy(defs[node.id])
+            return node
+    out = copy.deepcopy(e)
+    for _ in range(depth):
+        new = T().visit(out) if not (isinstance(out, ast.Name) and out.id in defs) else copy.deepcopy(defs[out.id])
+        if ast.dump(new) == ast.dump(out):
+            break
+        out = new
+    return ast.fix_missing_locations(out)
+
+
 class HandlerEval:
     """evaluates the content handler's methods on symbolic SAX events; records what is appended to `self.output`.
     Fragment: expression statements calling self.output.append / extend / self.append_string, `for k, v in
@@ -150,20 +182,77 @@ def run(chk: Check, repo: Repo) -> None:
     v = repo.func(M, "verify_keyring_signature")
     chk.unit(v)
     rets = [n for n in walk_local(v.node) if isinstance(n, ast.Return)]
-    ok = len(rets) == 1 and ast.unparse(rets[0].value) in ("sha256_hash(handler.output)[:16] == signature", "signature == sha256_hash(handler.output)[:16]")
-    chk.ob("signature-compared-with-hash-of-signed-octets", v.site(), ok, f"returns `{ast.unparse(rets[0].value) if rets else '?'}`", key="verify|compare")
-    src = ast.unparse(v.node)
-    ok = "handler = KeyringSAXContentHandler(password)" in src and "parser.setContentHandler(handler)" in src and "signature = base64.b64decode(element.attrib.get('Signature', ''))" in src
-    chk.ob("signature-compared-with-hash-of-signed-octets", v.site(), ok, "handler built from the given password is the one the SAX parser feeds; the signature is the root element's Signature attribute", key="verify|wiring")
+    pw = v.node.args.args[1].arg
+    hexpr = sexpr = None
+    shape = "?"
+    if len(rets) == 1 and rets[0].value is not None:
+        r = rets[0].value
+        pair = None
+        if isinstance(r, ast.Compare) and len(r.ops) == 1 and isinstance(r.ops[0], ast.Eq):
+            pair, shape = (r.left, r.comparators[0]), "=="
+        elif isinstance(r, ast.Call) and call_name(r).split(".")[-1] == "compare_digest" and len(r.args) == 2:
+            pair, shape = (r.args[0], r.args[1]), "compare_digest"
+        else:
+            shape = f"`{ast.unparse(r)[:80]}` (not an equality of the two octet strings)"
+        if pair is not None:
+            for a, b in (pair, pair[::-1]):
+                ia = inline_locals(v.node, a)
+                if isinstance(ia, ast.Subscript) and isinstance(ia.slice, ast.Slice):
+                    hexpr, sexpr = a, b
+    ok_hash = False
+    hname = None
+    if hexpr is not None:
+        ia = inline_locals(v.node, hexpr, keep_calls=("KeyringSAXContentHandler",))
+        sl = ia.slice
+        lo = repo.fold(sl.lower, v.module, None) if sl.lower is not None else 0
+        hi = repo.fold(sl.upper, v.module, None) if sl.upper is not None else None
+        inner = ia.value
+        if lo == 0 and hi == 16 and sl.step is None and isinstance(inner, ast.Call) and call_name(inner) == "sha256_hash" and len(inner.args) == 1 and isinstance(inner.args[0], ast.Attribute) and inner.args[0].attr == "output" and isinstance(inner.args[0].value, ast.Name):
+            hname = inner.args[0].value.id
+            ok_hash = True
+    ok_sig = False
+    if sexpr is not None:
+        isx = inline_locals(v.node, sexpr)
+        if isinstance(isx, ast.Call) and call_name(isx).split(".")[-1] == "b64decode" and isx.args:
+            src_ = isx.args[0]
+            key = None
+            if isinstance(src_, ast.Call) and isinstance(src_.func, ast.Attribute) and src_.func.attr == "get" and src_.args and isinstance(src_.func.value, ast.Attribute) and src_.func.value.attr == "attrib":
+                key, root = repo.fold(src_.args[0], v.module, None), src_.func.value.value
+            elif isinstance(src_, ast.Subscript) and isinstance(src_.value, ast.Attribute) and src_.value.attr == "attrib":
+                key, root = repo.fold(src_.slice, v.module, None), src_.value.value
+            if key == "Signature" and isinstance(root, ast.Call) and call_name(root).split(".")[-1] in ("parse", "getroot"):
+                ok_sig = True
+    chk.ob("signature-compared-with-hash-of-signed-octets", v.site(), ok_hash and ok_sig, f"returns `{ast.unparse(rets[0].value) if rets else '?'}`: {shape} of sha256_hash(<handler>.output)[:16] ({'yes' if ok_hash else 'NO'}) and the decoded root `Signature` attribute ({'yes' if ok_sig else 'NO'}) — an equality of the whole 16 octets, so a shortened or empty signature never verifies", key="verify|compare")
+    # wiring: the handler whose output is hashed is built from the given password and is the one the parser feeds
+    hdefs = [n for n in walk_local(v.node) if isinstance(n, ast.Assign) and len(n.targets) == 1 and isinstance(n.targets[0], ast.Name) and n.targets[0].id == hname]
+    ok_h = len(hdefs) == 1 and isinstance(hdefs[0].value, ast.Call) and call_name(hdefs[0].value) == "KeyringSAXContentHandler" and [ast.unparse(a) for a in hdefs[0].value.args] + [ast.unparse(k.value) for k in hdefs[0].value.keywords] == [pw] and not any(isinstance(n, ast.Name) and n.id == pw and isinstance(n.ctx, ast.Store) for n in walk_local(v.node))
+    setters = [c for c in calls(v.node) if call_name(c).endswith(".setContentHandler")]
+    parses = [c for c in calls(v.node) if call_name(c).endswith(".parse") and isinstance(c.func, ast.Attribute) and isinstance(c.func.value, ast.Name)]
+    ok_w = len(setters) == 1 and len(setters[0].args) == 1 and isinstance(setters[0].args[0], ast.Name) and setters[0].args[0].id == hname and isinstance(setters[0].func.value, ast.Name) and any(pc.func.value.id == setters[0].func.value.id and pc.lineno > setters[0].lineno for pc in parses)
+    chk.ob("signature-compared-with-hash-of-signed-octets", v.site(), ok_h and ok_w, f"handler `{hname}` = KeyringSAXContentHandler(<the given password>) ({'yes' if ok_h else 'NO'}), installed with setContentHandler on the parser that then parses the file ({'yes' if ok_w else 'NO'})", key="verify|wiring")
     # (c) load order
     ld = repo.func(M, "sync_load_keyring")
     chk.unit(ld)
     cfg = CFG(ld.node)
-    mf = cfg.must_facts()
     parse_nodes = [n for n in cfg.nodes if n.ast is not None and n.kind in ("stmt", "with") and any(isinstance(x, ast.Call) and call_name(x) in ("parse", "keyring.parse_xml", "keyring.decrypt") for x in ast.walk(n.ast))]
-    guard = [n for n in walk_local(ld.node) if isinstance(n, ast.If) and ast.unparse(n.test) == "validate_signature and (not verify_keyring_signature(_path, password))" and any(isinstance(x, ast.Raise) for x in n.body)]
-    ok = bool(parse_nodes) and len(guard) == 1 and ld.node.body.index(guard[0]) < min(ld.node.body.index(s) for s in ld.node.body if any(p.ast is s or any(p.ast is y for y in ast.walk(s)) for p in parse_nodes))
-    chk.ob("verification-precedes-parsing", ld.site(), ok, "sync_load_keyring raises on a failed verification before parse / parse_xml / decrypt are reached", key="load|order")
+    lparams = [a.arg for a in ld.node.args.args]
+
+    def is_guard(n: ast.If) -> bool:
+        conj = n.test.values if isinstance(n.test, ast.BoolOp) and isinstance(n.test.op, ast.And) else [n.test]
+        seen_verify = False
+        for t in conj:
+            if isinstance(t, ast.Name) and t.id == "validate_signature":
+                continue
+            if isinstance(t, ast.UnaryOp) and isinstance(t.op, ast.Not) and isinstance(t.operand, ast.Call) and call_name(t.operand) == "verify_keyring_signature" and len(t.operand.args) == 2 and not t.operand.keywords:
+                a0 = ast.unparse(inline_locals(ld.node, t.operand.args[0]))
+                if a0 in (lparams[0], f"Path({lparams[0]})") and ast.unparse(t.operand.args[1]) == lparams[1]:
+                    seen_verify = True
+                    continue
+            return False
+        return seen_verify and any(isinstance(x, ast.Raise) for x in n.body) and isinstance(n.body[-1], ast.Raise)
+    guard = [n for n in ld.node.body if isinstance(n, ast.If) and is_guard(n)]
+    ok = bool(parse_nodes) and len(guard) == 1 and ld.node.body.index(guard[0]) < min(ld.node.body.index(s_) for s_ in ld.node.body if any(p_.ast is s_ or any(p_.ast is y for y in ast.walk(s_)) for p_ in parse_nodes))
+    chk.ob("verification-precedes-parsing", ld.site(), ok, "sync_load_keyring raises on a failed verification (of the given path and password; skipped only when validate_signature is off) before parse / parse_xml / decrypt are reached", key="load|order")
     # (d) decryption flow
     n_fields = 0
     for c in repo.all_classes():
@@ -187,6 +276,24 @@ def run(chk: Check, repo: Repo) -> None:
                 srcs.append(a0)
                 ok_src = ok_src and a0 == f"base64.b64decode(self.{enc})" and a1 == "password_hash" and a2 == "initialization_vector"
             chk.ob("decrypted-field-comes-from-its-own-ciphertext", f"{c.module.relpath}:{c.node.lineno}:{c.name}", ok_owner and ok_src, f"{c.name}.{fld}: written in {sorted(owners)} from {srcs}", key=f"decrypt|{c.name}.{fld}")
+            # the decryption is reached whenever the ciphertext attribute is there: every condition on the way to the
+            # write (enclosing ifs, early returns, the conditional expression's test) tests that attribute and nothing else
+            for w in ws_:
+                if w.func.qualname != f"{c.name}.decrypt_attributes":
+                    continue
+                enc = fld[len("decrypted_"):]
+                dcfg = CFG(w.func.node)
+                dmf = dcfg.must_facts()
+                conds = [t for n in dcfg.nodes if n.ast is w.stmt for t, _ in dmf[n.id]]
+                if isinstance(getattr(w.stmt, "value", None), ast.IfExp):
+                    conds.append(ast.unparse(w.stmt.value.test))
+                foreign = []
+                for t in conds:
+                    e = ast.parse(t, mode="eval").body
+                    names = {ast.unparse(x) for x in ast.walk(e) if isinstance(x, ast.Attribute) or (isinstance(x, ast.Name) and x.id not in ("self", "None"))}
+                    if names - {f"self.{enc}"}:
+                        foreign.append(t)
+                chk.ob("decryption-conditional-only-on-its-own-ciphertext", w.func.site(w.stmt), not foreign, f"{c.name}.{fld} is decrypted under {conds or ['no condition']}" + (f" — {foreign} can skip the decryption although `{enc}` is present" if foreign else ""), key=f"decrypt-cond|{c.name}.{fld}")
     chk.floor("decrypted fields", n_fields, 7)
     dk = repo.func(M, "Keyring.decrypt")
     chk.unit(dk)
